@@ -256,6 +256,13 @@ def r6(run, db):
                         for r in g.origins(op):
                             if r["k"] == "call" and r["call"].matches(TIMER):
                                 return True
+                            # `opt.as_ref().map(|cfg| cell.send_after(..))`: the timer is armed inside the mapping closure
+                            if r["k"] == "call" and r["call"].matches(r"Option::<T>::(map|and_then)$|bool>::then$|<impl bool>::then$") and len(r["call"].args) > 1:
+                                for r2 in g.origins(r["call"].args[1]):
+                                    if r2["k"] == "agg" and r2["stmt"]["rv"].get("kind") == "closure":
+                                        for h in db.family(r2["stmt"]["rv"]["def"]):
+                                            if any(x.matches(TIMER) for x in h.calls()):
+                                                return True
                             if r["k"] == "agg" and depth < 2 and any(from_timer(o, depth + 1) for o in r["stmt"]["rv"]["ops"]):
                                 return True
                         return False
